@@ -384,11 +384,11 @@ def ofx_work(chunk):
             t.count("evaluations")
             import copy as _copy
 
-            extra = _copy.deepcopy(src[0])
             m = vars(ofx)[mset]
-            before = list(ofx.statements)
-            m.append(extra)
             try:
+                extra = _copy.deepcopy(src[0])
+                before = list(ofx.statements)
+                m.append(extra)
                 after = ofx.statements
                 ok = len(after) == len(before) + 1 and any(x is vars(extra)[src[1]] for x in after) and any(x is vars(extra)[src[1]] for x in m.statements)
                 m.pop()
